@@ -4,6 +4,7 @@ import (
 	"encoding/json"
 	"fmt"
 	"strings"
+	"sync"
 
 	"verif/harness/h"
 	"verif/harness/rs"
@@ -15,10 +16,12 @@ func init() { register("C09", checkC09, replayC09) }
 var e3Part = map[string]func(run *h.Run){}
 
 type c09Case struct {
-	Cfg  corsCfg  `json:"cfg"`
-	Seq  []h.Req  `json:"sequence"`
-	Got  corsResp `json:"got"`
-	Want any      `json:"expected,omitempty"`
+	Cfg     corsCfg  `json:"cfg"`
+	Seq     []h.Req  `json:"sequence"`
+	Hist    []string `json:"history,omitempty"`         // E2: preflights and route mutations, rendered
+	HistIdx []int    `json:"history_letters,omitempty"` // indices into c09Alphabet() (>= len: mutations)
+	Got     corsResp `json:"got"`
+	Want    any      `json:"expected,omitempty"`
 }
 
 func preflight(url, origin, method, headers string) h.Req {
@@ -144,6 +147,30 @@ func replayC09(detail json.RawMessage) error {
 		}
 		return err
 	}
+	if len(c.HistIdx) > 0 {
+		rs.Quiet(false)
+		alphabet, muts := c09Alphabet(), []string{"unroute-put", "route-put"}
+		w, f := corsBuild(c.Cfg, true), corsBuild(c.Cfg, true)
+		var last corsResp
+		for k, i := range c.HistIdx {
+			if i >= len(alphabet) {
+				w.mutate(muts[i-len(alphabet)])
+				f.mutate(muts[i-len(alphabet)])
+				fmt.Println(muts[i-len(alphabet)])
+				continue
+			}
+			last = w.do(alphabet[i])
+			fmt.Printf("%v -> %s\n", alphabet[i], last.key())
+			if k == len(c.HistIdx)-1 {
+				want := f.do(alphabet[i]).key()
+				fmt.Printf("fresh filter, same routes: %s\n", want)
+				if want != last.key() {
+					return fmt.Errorf("answer depends on the history")
+				}
+			}
+		}
+		return nil
+	}
 	if len(c.Seq) == 0 {
 		if e3ReplayHook != nil {
 			return e3ReplayHook("C09", detail)
@@ -168,6 +195,16 @@ func replayC09(detail json.RawMessage) error {
 		return fmt.Errorf("%s", why)
 	}
 	return nil
+}
+
+func c09Alphabet() []h.Req {
+	var alphabet []h.Req
+	for _, url := range []string{"u1", "u2", "nope"} {
+		for _, m := range []string{"GET", "PUT", "DELETE"} {
+			alphabet = append(alphabet, preflight(url, corsE1, m, "X-A"))
+		}
+	}
+	return alphabet
 }
 
 type e3Wrapper struct {
@@ -243,22 +280,43 @@ func checkC09(run *h.Run) {
 	if run.Tier == "thorough" {
 		depth = 4
 	}
-	var alphabet []h.Req
-	for _, url := range []string{"u1", "u2", "nope"} {
-		for _, m := range []string{"GET", "PUT", "DELETE"} {
-			alphabet = append(alphabet, preflight(url, corsE1, m, "X-A"))
-		}
-	}
+	alphabet := c09Alphabet()
 	seqCfgs := []corsCfg{{Domains: []string{corsE1}, Headers: []string{"X-A"}}, {Domains: []string{corsE1}, Methods: []string{"GET", "PUT"}, Headers: []string{"X-A"}}, {Domains: []string{corsE1}, Headers: []string{"X-A"}, JSR: true}}
 	var seqStates, seqTrans int64
 	for _, cfg := range seqCfgs {
-		fresh := map[int]string{}
-		for i, q := range alphabet {
-			fresh[i] = corsBuild(cfg, true).do(q).key()
+		// two extra letters: route mutations on the dynamic service (computed methods must follow them)
+		muts := []string{"unroute-put", "route-put"}
+		nPre := len(alphabet)
+		freshCache := map[string]string{}
+		var fmu sync.Mutex
+		// freshAnswer: a fresh container on which only the mutations of the history were applied
+		freshAnswer := func(seq []int) string {
+			var ms []string
+			for _, i := range seq[:len(seq)-1] {
+				if i >= nPre {
+					ms = append(ms, muts[i-nPre])
+				}
+			}
+			k := fmt.Sprint(ms, seq[len(seq)-1])
+			fmu.Lock()
+			v, ok := freshCache[k]
+			fmu.Unlock()
+			if ok {
+				return v
+			}
+			w := corsBuild(cfg, true)
+			for _, m := range ms {
+				w.mutate(m)
+			}
+			v = w.do(alphabet[seq[len(seq)-1]]).key()
+			fmu.Lock()
+			freshCache[k] = v
+			fmu.Unlock()
+			return v
 		}
 		// enumerate all sequences of length 1..depth (a state is the history that reaches it)
 		total := 0
-		n := len(alphabet)
+		n := len(alphabet) + len(muts)
 		for l := 1; l <= depth; l++ {
 			count := 1
 			for i := 0; i < l; i++ {
@@ -269,8 +327,8 @@ func checkC09(run *h.Run) {
 		seqs := make([][]int, 0, total)
 		var rec func(cur []int)
 		rec = func(cur []int) {
-			if len(cur) > 0 {
-				seqs = append(seqs, append([]int{}, cur...))
+			if len(cur) > 0 && cur[len(cur)-1] < nPre {
+				seqs = append(seqs, append([]int{}, cur...)) // judged histories end in a preflight
 			}
 			if len(cur) == depth {
 				return
@@ -285,16 +343,19 @@ func checkC09(run *h.Run) {
 			seq := seqs[si]
 			w := corsBuild(cfg, true)
 			var last corsResp
+			var names []string
 			for _, i := range seq {
-				last = w.do(alphabet[i])
-			}
-			if k := last.key(); k != fresh[seq[len(seq)-1]] {
-				var qs []h.Req
-				for _, i := range seq {
-					qs = append(qs, alphabet[i])
+				if i >= nPre {
+					w.mutate(muts[i-nPre])
+					names = append(names, muts[i-nPre])
+				} else {
+					last = w.do(alphabet[i])
+					names = append(names, alphabet[i].String())
 				}
-				run.Violate("preflight-history", "", fmt.Sprintf("%+v ; after %d earlier preflights %v is answered %s, a fresh filter answers %s", cfg, len(seq)-1, qs[len(qs)-1], k, fresh[seq[len(seq)-1]]),
-					c09Case{Cfg: cfg, Seq: qs, Got: last, Want: fresh[seq[len(seq)-1]]}, nil)
+			}
+			if k, want := last.key(), freshAnswer(seq); k != want {
+				run.Violate("preflight-history", "", fmt.Sprintf("%+v ; after the history %q the last preflight is answered %s ; a fresh filter on a container with the same routes answers %s", cfg, names[:len(names)-1], k, want),
+					c09Case{Cfg: cfg, Hist: names, HistIdx: seq, Got: last, Want: want}, nil)
 			}
 		})
 		seqStates += int64(len(seqs))
@@ -311,7 +372,7 @@ func checkC09(run *h.Run) {
 	run.Cov["evaluations"] = cases*2 + seqTrans
 	run.Cov["distinct_nontrivial"] = nontriv + seqStates
 	run.Cov["exhaustive"] = true
-	run.Cov["rule"] = fmt.Sprintf("E1: configurations (allowed methods {computed,[GET],[GET,PUT]} x allowed headers {none,[X-A],[X-A,X-B],[*]} x cookies x router) x requests (3 URLs x allowed/case-variant/disallowed origin x 6 requested methods x 8 requested-header lists, plus actual requests) against the statement's grant rule, routable methods measured on a filter-less twin; E2: every sequence of <= %d preflights over 3 URLs x 3 methods on one filter, each answer compared with a fresh filter's; E3 (instrumented build): two concurrent preflights through one filter, all schedules within the preemption bound with happens-before race detection. Non-trivial: request from an allowed origin / every history.", depth)
+	run.Cov["rule"] = fmt.Sprintf("E1: configurations (allowed methods {computed,[GET],[GET,PUT]} x allowed headers {none,[X-A],[X-A,X-B],[*]} x cookies x router) x requests (3 URLs x allowed/case-variant/disallowed origin x 6 requested methods x 8 requested-header lists, plus actual requests) against the statement's grant rule, routable methods measured on a filter-less twin; E2: every sequence of <= %d steps over 9 preflights (3 URLs x 3 methods) and 2 route mutations (RemoveRoute / Route of PUT on a dynamic service) on one filter, each preflight answer compared with a fresh filter's on a container with the same routes; E3 (instrumented build): two concurrent preflights through one filter, all schedules within the preemption bound with happens-before race detection. Non-trivial: request from an allowed origin / every history.", depth)
 	run.Assume = []string{"method-name case (get vs GET) is not decided by the statement: either answer accepted", "statement's grant rule transcribed in judgeC09"}
 	if f := e3Part["C09"]; f != nil {
 		f(run)
